@@ -2,6 +2,10 @@
 C03 for TSP: the reward computed by the gather / `roll(-1)` / norm / sum idiom is minus the length
 of the closed tour through the visited nodes in order, for EVERY action list, provided distances are
 symmetric (the code measures |x_next − x_cur|; Euclidean distance is symmetric).
+
+The statement covers one-node tours too (`as = [a]`: reward `-D a a`); the real code agrees since
+/repo commit f2d5960 (before it, the gather squeezed a one-step action dimension and the roll ran
+over the batch; the harness keeps a regression probe for n = 1 inside batches).
 -/
 import Rl4co.Env.Tsp
 import Rl4co.Spec.Tsp
@@ -26,5 +30,8 @@ theorem reward_eq_objective (i : Inst) (hs : ∀ a b, i.D a b = i.D b a) (as : L
 /-- Sanity on a concrete symmetric matrix: tour 2 → 0 → 1 → 2. -/
 example : reward ⟨3, fun a b => if a = b then 0 else (a + b : Int)⟩ [2, 0, 1] = -(2 + 1 + 3) := by
   decide
+
+/-- a one-node tour has length `D 0 0` (= 0 for a distance) -/
+example : reward ⟨1, fun _ _ => 0⟩ [0] = 0 := by decide
 
 end Rl4co.Tsp
